@@ -176,6 +176,7 @@ def run(ctx):
         "E= (candidate ends), ge= and cf= (confirmed text) are read through the C++ classes",
     ]
     ctx.assumptions += [
+        "the *_total variants of the exactly-once theorems assume the translator hypothesis cands_fit (each candidate ends inside its segment), proved for the synthetic oracle translator",
         "full_shape off (formatters are the identity) and the schema switcher not open, as the property states; generators never "
         "set full_shape and avoid the switcher hot keys",
         "exactly_once is stated for histories in which no modelled call reaches an undefined C++ operation (not_crash); C01's "
